@@ -570,7 +570,16 @@ def unit_writer_init():
 # ---- write_row
 def m_w_validate_row(ex, st, fn, args, kw):
     st.ghost["validate_calls"] = Sym(INT, G(st, "validate_calls") + 1)
-    ex.obligations.append(Obligation("validate_row-receives-the-row-to-write", st.pc, z3.BoolVal(args[0] is st.ghost["row"]), "protocol", props=["C14"]))
+    # F-20: for fixed-width data the row judged is the row as it will be written (padded), so that reading the output back judges the same values;
+    # a row with the wrong number of items cannot be padded and is judged (and rejected: the count clause of validate_row's contract) as it is
+    fixed = st.heap[st.heap[st.heap[st.ghost["this"].oid]["_cid"].oid]["_data_format"].oid]["_format"] == "fixed"
+    count_ok = st.ghost["row"].length == G(st, "nfields")
+    if fixed:
+        padded_given = z3.BoolVal(st.ghost["padded"] is not None and args[0] is st.ghost["padded"] and st.ghost["padded_from"] is st.ghost["row"])
+        goal = z3.If(count_ok, padded_given, z3.BoolVal(args[0] is st.ghost["row"]))
+        st.pc.append(z3.Implies(st.ghost["row_ok"].z, count_ok))
+    else: goal = z3.BoolVal(args[0] is st.ghost["row"])
+    ex.obligations.append(Obligation("validate_row-receives-the-row-as-it-will-be-written-(fixed:-padded)", st.pc, goal, "protocol", props=["C14"]))
     ex.obligations.append(Obligation("validate_row-before-anything-is-written", st.pc, G(st, "writes") == 0, "protocol", props=["C14"]))
     okz = st.ghost["row_ok"].z
     for s2, b in ex.fork(st, Sym(BOOL, okz)):
@@ -598,9 +607,10 @@ def setup_write_row(fmt):
         loc = Ref("Location"); st.heap[loc.oid] = {"file_path": "<io>", "_line": line0, "_column": 0, "_cell": 0, "_sheet": 0, "_has_column": False, "_has_cell": True, "_has_sheet": False}
         w = Ref("FixedRowWriter" if fmt == "fixed" else "DelimitedRowWriter"); st.heap[w.oid] = {"_location": loc}
         df = Ref("DataFormat"); st.heap[df.oid] = {"_format": fmt, "_is_valid": True, "_header": header}
-        cid = Ref("Cid"); st.heap[cid.oid] = {"_data_format": df}
+        fields, cf = fresh(UFList(FIELD), "fields"); st.pc.extend(cf)
+        cid = Ref("Cid"); st.heap[cid.oid] = {"_data_format": df, "_field_formats": fields}
         self = Ref("Writer"); st.heap[self.oid] = {"_cid": cid, "_header": header, "_delegated_writer": w, "_is_closed": False}
-        st.frames[-1].env.update({"self": self, "row_to_write": row})
+        st.frames[-1].env.update({"self": self, "row_to_write": row}); st.ghost["nfields"] = Sym(INT, fields.length)
         st.ghost.update({"row": row, "header": header, "line0": line0, "loc": loc, "writes": 0, "validate_calls": 0, "row_ok": fresh(BOOL, "row_ok")[0], "written": None, "padded": None, "padded_from": None, "this": self})
     return setup
 
@@ -608,7 +618,9 @@ def setup_write_row(fmt):
 def write_row_contract(fmt):
     def wrote_expected(ex, st):
         w = st.ghost["written"]
-        if fmt == "fixed": return Sym(BOOL, z3.BoolVal(w is not None and w is st.ghost["padded"] and st.ghost["padded_from"] is st.ghost["row"]))
+        if fmt == "fixed":
+            # a row with as many items as there are fields is emitted padded; any other row can only be an (unvalidated) header row, which is the caller's business
+            return Sym(BOOL, z3.If(st.ghost["row"].length == G(st, "nfields"), z3.BoolVal(w is not None and w is st.ghost["padded"] and st.ghost["padded_from"] is st.ghost["row"]), z3.BoolVal(w is st.ghost["row"])))
         return Sym(BOOL, z3.BoolVal(w is st.ghost["row"]))
     return Contract("validio.Writer.write_row", setup_write_row(fmt),
         returns=[Clause("writes == 1", "an-accepted-row-is-emitted-exactly-once", props=["C14"]),
@@ -625,7 +637,7 @@ def unit_writer_write_row():
                  "callees": {"validio.BaseValidator.validate_row": ModelContract(m_w_validate_row), "validio.Writer._padded_fixed_row": ModelContract(m_padded),
                              "ref:FixedRowWriter.write_row": m_delegate_write_row, "ref:DelimitedRowWriter.write_row": m_delegate_write_row},
                  "assumptions": ["callee contracts: validate_row (verified), _padded_fixed_row (verified below), the delegated writer's write_row (rowio units): writes one row, advances its location, raises only DataFormatError"]} for f in ("delimited", "fixed")]
-    return ProofUnit("validio.Writer.write_row", "Writer.write_row: validate first; nothing emitted and position unchanged on rejection; padded row for fixed", ["C14", "C20"], make, None)
+    return ProofUnit("validio.Writer.write_row", "Writer.write_row: validate first (fixed: the padded row, i.e. what is written); nothing emitted and position unchanged on rejection", ["C14", "C20"], make, None)
 
 
 # ---- _padded_fixed_row
